@@ -185,14 +185,32 @@ access(all) contract C {
         return s.concat("})")
     }
 
+    // every resource carries this attachment; a reference to it (or obtained through it) is a
+    // reference into the resource and must die when the resource, or one enclosing it, moves
+    access(all) attachment A for I {
+        access(all) let k: Int
+        init() { self.k = 7 }
+        access(all) fun getK(): Int { return self.k }
+        access(all) fun baseTag(): Int { return base.tag }
+        access(all) fun baseUuid(): UInt64 { return base.uuid }
+        access(all) fun setBaseTag(_ t: Int) { base.setTag(t) }
+        access(all) fun baseRef(): &{I} { return base }
+    }
+    access(all) struct AHolder {
+        access(all) let ref: &A
+        init(_ r: &A) { self.ref = r }
+    }
+    access(all) fun ida(_ a: &A?): &A? { return a }
+    access(all) fun anyId(_ a: AnyStruct): AnyStruct { return a }
+
     access(all) fun mkR(_ tag: Int): @R {
-        let r <- create R(tag)
+        let r <- attach A() to <-create R(tag)
         emit Made(uuid: r.uuid, evented: true)
         return <- r
     }
 
     access(all) fun mkQ(_ tag: Int): @Q {
-        let r <- create Q(tag)
+        let r <- attach A() to <-create Q(tag)
         emit Made(uuid: r.uuid, evented: false)
         return <- r
     }
